@@ -38,6 +38,15 @@ class Opt:
     captured_ints: tuple = ()  # names (of the enclosing scope) that hold ints
     helpers: tuple = ()  # (name, n_params) of int-valued helper functions that may be called
     extra_binder_names: tuple = ()  # additional names binders may be given (to collide with captured names)
+    called_rate: float = 0.12
+    called_kw_rate: float = 0.3
+    rec_ctor: bool = False  # records are built with data-class / NamedTuple constructors (collected in Gen.rec_classes) and read by attribute only
+    rec_keys: tuple = ("a", "b", "c", "pt", "val")
+    closed: bool = False  # no free dataset name: a sequence that cannot be reached from the scope is a dead end (GenDeadEnd)
+
+
+class GenDeadEnd(Exception):
+    pass
 
 
 NAME_POOL = ["e", "j", "t", "x", "y", "z", "a", "b", "jet", "trk", "v", "w"]
@@ -55,6 +64,7 @@ class Gen:
         self.scheme = scheme
         self.same_name = rng.choice(NAME_POOL)
         self.features: set = set()
+        self.rec_classes: dict = {}  # key tuple -> class name
 
     # names --------------------------------------------------------------------------------
     def fresh(self, scope) -> str:
@@ -118,16 +128,25 @@ class Gen:
                 return "[" + ", ".join(parts) + "]"
             return "(" + ", ".join(parts) + ("," if len(parts) == 1 else "") + ")"
         if k == "rec":
+            if self.opt.rec_ctor:
+                self.features.add("record-ctor")
+                keys = tuple(k for k, _ in sort[1])
+                cname = self.rec_classes.setdefault(keys, "R_" + "_".join(keys))
+                parts = [(key, self.expr(s, scope, d - 1)) for key, s in sort[1]]
+                if self.rng.random() < 0.4:
+                    return f"{cname}(" + ", ".join(v for _, v in parts) + ")"
+                self.rng.shuffle(parts) if self.rng.random() < 0.3 else None
+                return f"{cname}(" + ", ".join(f"{k}={v}" for k, v in parts) + ")"
             self.features.add("dict")
             return "{" + ", ".join(f"'{key}': {self.expr(s, scope, d - 1)}" for key, s in sort[1]) + "}"
         raise ValueError(sort)
 
     def wrap_called(self, sort, scope, d) -> Optional[str]:
         "(lambda p…: body)(args…) producing `sort`"
-        if not self.opt.called_lambda or d <= 0 or self.rng.random() > 0.12:
+        if not self.opt.called_lambda or d <= 0 or self.rng.random() > self.opt.called_rate:
             return None
         self.features.add("called-lambda")
-        n = self.rng.choice([1, 1, 2])
+        n = self.rng.choice([1, 1, 2] if self.opt.called_rate <= 0.12 else [1, 2, 2, 3])
         psorts = [self.rand_sort(scope, 1) for _ in range(n)]
         names = []
         sc = list(scope)
@@ -140,7 +159,7 @@ class Gen:
             sc = sc + [(x, s)]
         body = self.expr(sort, sc, d - 1)
         args = [self.expr(s, scope, d - 1) for s in psorts]
-        if self.opt.kw_called_lambda and self.rng.random() < 0.3:
+        if self.opt.kw_called_lambda and self.rng.random() < self.opt.called_kw_rate:
             self.features.add("called-lambda-kw")
             npos = self.rng.randrange(0, n)
             kws = list(zip(names[npos:], args[npos:]))
@@ -161,7 +180,7 @@ class Gen:
         if r < 0.9 and self.opt.packs:
             return ("tup", tuple(self.rand_sort(scope, d - 1) for _ in range(self.rng.choice([1, 2, 3]))))
         if self.opt.packs:
-            keys = self.rng.sample(["a", "b", "c", "pt", "val"], self.rng.choice([1, 2]))
+            keys = self.rng.sample(list(self.opt.rec_keys), self.rng.choice([1, 2]))
             return ("rec", tuple((k, self.rand_sort(scope, d - 1)) for k in keys))
         return INT
 
@@ -176,11 +195,11 @@ class Gen:
             pack = self.expr(("tup", tuple(sorts)), scope, d - 1)
             self.features.add("proj-index")
             return f"{pack}[{i}]"
-        keys = self.rng.sample(["a", "b", "c", "pt"], self.rng.choice([1, 2]))
+        keys = self.rng.sample(list(self.opt.rec_keys)[:4], self.rng.choice([1, 2]))
         i = self.rng.randrange(len(keys))
         sorts = [(k, sort if n == i else self.rand_sort(scope, d - 1)) for n, k in enumerate(keys)]
         pack = self.expr(("rec", tuple(sorts)), scope, d - 1)
-        if self.rng.random() < 0.5:
+        if self.rng.random() < 0.5 and not self.opt.rec_ctor:
             self.features.add("proj-key")
             return f"{pack}['{keys[i]}']"
         self.features.add("proj-attr")
@@ -197,7 +216,7 @@ class Gen:
             if s[0] == "rec":
                 for key, c in s[1]:
                     if c == sort:
-                        cands.append(self.rng.choice([f"{n}['{key}']", f"{n}.{key}"]))
+                        cands.append(f"{n}.{key}" if self.opt.rec_ctor else self.rng.choice([f"{n}['{key}']", f"{n}.{key}"]))
         if cands and self.rng.random() < 0.6:
             self.features.add("proj-of-var")
             return self.rng.choice(cands)
@@ -271,7 +290,7 @@ class Gen:
             self.features.add("first")
             s = self.seq_expr(INT, scope, d - 1)
             return self.opcall("First", s, [])
-        if r < 0.78 and self.opt.methods_with_args:
+        if r < 0.78 and self.opt.methods_with_args and (objs or not self.opt.closed):
             o, cls = self.obj_of(scope, d)
             f = self.rng.choice(SCHEMA[cls]["ints"])
             self.features.add("method-args")
@@ -297,6 +316,8 @@ class Gen:
         if r < 0.96:
             self.features.add("unary")
             return f"(-{self.int_expr(scope, d - 1)})"
+        if self.opt.closed and not objs:
+            return str(self.rng.choice([0, 1, 2, 5]))
         o, cls = self.obj_of(scope, d)
         f = self.rng.choice(SCHEMA[cls]["ints"])
         if not o.replace("_", "a").isalnum():
@@ -340,7 +361,11 @@ class Gen:
         if c:
             return self.rng.choice(c)
         # reach it from the dataset: go through any object variable or ds
+        if self.opt.closed and d < -6:
+            raise GenDeadEnd()
         if el == ("obj", "E"):
+            if self.opt.closed:
+                raise GenDeadEnd()
             return "ds"
         if el == ("obj", "J"):
             src = self.obj_expr("E", scope, d - 1)
@@ -349,6 +374,9 @@ class Gen:
             src = self.obj_expr("J", scope, d - 1)
             return f"{src}.trks"
         if el == INT:
+            if self.opt.closed and not self.vars_of(scope, lambda s: s[0] == "obj"):
+                self.features.add("list-literal")
+                return "[" + ", ".join(self.int_expr(scope, 0) for _ in range(self.rng.choice([0, 1, 2, 3]))) + "]"
             if self.rng.random() < 0.5:
                 return f"{self.obj_expr('E', scope, d - 1)}.nums"
             return f"{self.obj_expr('J', scope, d - 1)}.vals"
